@@ -47,8 +47,11 @@ def scripts(rng, tier, n=None):
             seq += rng.choice([1, 1, 2, 5])
             mi = rng.randrange(len(p.keys)) if p.use_mki else 0
             L.append(pkt_op("protect", 1, pkt, cap=len(pkt) + p.trailer(), mode=rng.choice([0, 1, 2]), mki_index=mi)); a = len(L)
-            L.append(pkt_op("unprotect", 2, f"@{a:x}", cap=len(pkt) + p.trailer(), mode=rng.choice([0, 1, 2])))
-            L.append(f"# RT {1 if in_domain(p, pkt) else 0}")
+            umode = rng.choice([0, 1, 2])
+            L.append(pkt_op("unprotect", 2, f"@{a:x}", cap=len(pkt) + p.trailer(), mode=umode))
+            # documented exception: cryptex with CSRCs under AES-GCM is refused out of place (srtp_err_status_cryptex_err)
+            refused_by_design = p.rtp[0] in (GCM128, GCM256) and p.cryptex and (pkt[0] & 15) and umode != 0
+            L.append(f"# RT {1 if in_domain(p, pkt) and not refused_by_design else 0}")
         L += ["dealloc 1", "dealloc 2"]
         out.append((f"rt-{k}", "\n".join(L) + "\n"))
     return out
